@@ -462,6 +462,27 @@ func runGateChain(c *core.Ctx) {
 		okErr = okErr && e
 		okValid = okValid && v
 	}
+	// (the error needs no test of its own where Verify's answers tie it to the verdict: every result that
+	// can be true comes with a nil error — `return ok, nil`, or `return err == nil, err`)
+	if !okErr && okValid {
+		if ver := P.Method(P.Root, "Event", "Verify"); ver != nil && ver.Signature.Results().Len() == 2 {
+			tied := true
+			for _, rb := range an.ReturnBlocks(ver) {
+				rv := an.ReturnValues(an.LastInstr(rb).(*ssa.Return))
+				switch {
+				case isConstBool(rv[0], false), an.IsNilConst(rv[1]):
+				default:
+					bo, isB := rv[0].(*ssa.BinOp)
+					if !isB || bo.Op != token.EQL || !an.IsNilConst(bo.Y) || bo.X != rv[1] {
+						tied = false
+					}
+				}
+			}
+			if tied {
+				okErr = true
+			}
+		}
+	}
 	c.Check(evPaths > 0 && okErr && okValid && verifyPath == wantVerify, []string{"C12", "C01"}, fname(c, fn), "edge[Verify]", P.Pos(S.Pos()),
 		fmt.Sprintf("on all %d EVENT paths to the forward: Verify(msg.Event) err == nil and result true", evPaths),
 		fmt.Sprintf("an EVENT can be forwarded without msg.Event.Verify() having returned (true, nil) (event paths: %d, err edge: %v, true edge: %v, verified value: %s)", evPaths, okErr, okValid, verifyPath))
